@@ -92,6 +92,32 @@ class Normalizer(ast.NodeTransformer):
             i += 1
         return out
 
+    def visit_Call(self, node):
+        """`all(f(x) for f in (a, b))` -> `a(x) and b(x)`, `any(..)` -> `.. or ..` over a literal tuple / list of names (same order, same short circuit;
+        the value is used as a truth value wherever a rule looks at it)"""
+        self.generic_visit(node)
+        if isinstance(node.func, ast.Name) and node.func.id in ('all', 'any') and len(node.args) == 1 and not node.keywords \
+                and isinstance(node.args[0], (ast.GeneratorExp, ast.ListComp)) and len(node.args[0].generators) == 1:
+            gen = node.args[0].generators[0]
+            if not gen.ifs and not gen.is_async and isinstance(gen.target, ast.Name) and isinstance(gen.iter, (ast.Tuple, ast.List)) and 2 <= len(gen.iter.elts) <= 8 \
+                    and all(isinstance(e, (ast.Name, ast.Constant)) or (isinstance(e, ast.Attribute) and all(
+                        isinstance(x, (ast.Name, ast.Attribute, ast.Load)) for x in ast.walk(e))) for e in gen.iter.elts) \
+                    and not any(isinstance(x, (ast.Lambda, ast.GeneratorExp, ast.ListComp, ast.NamedExpr)) for x in ast.walk(node.args[0].elt)):
+                import copy as _copy
+                vals = []
+                for e in gen.iter.elts:
+                    body = _copy.deepcopy(node.args[0].elt)
+
+                    class Sub(ast.NodeTransformer):
+                        def visit_Name(self_, n):
+                            if n.id == gen.target.id and isinstance(n.ctx, ast.Load):
+                                return ast.copy_location(_copy.deepcopy(e), n)
+                            return n
+                    vals.append(Sub().visit(body))
+                new = ast.BoolOp(op=ast.And() if node.func.id == 'all' else ast.Or(), values=vals)
+                return ast.fix_missing_locations(ast.copy_location(new, node))
+        return node
+
     def visit_If(self, node):
         self.generic_visit(node)
         node.test = self._strip_double_not(node.test)
@@ -331,7 +357,162 @@ class Normalizer(ast.NodeTransformer):
         return node
 
 
+class _Walrus(ast.NodeTransformer):
+    """assignment expressions are lowered to assignment statements where that keeps the evaluation order:
+
+        if (x := E) < 0: ..            ->  x = E; if x < 0: ..                 (the first thing the test evaluates)
+        if A and (x := E): B           ->  if A: x = E; if x: B                 (no else-branch)
+        while A and (x := E): B        ->  while A: x = E; if not x: break; B   (no else-branch; `while (x := E):` -> `while True: ..`)
+        y = f(x := E) / return (x := E) ->  x = E; y = f(x)
+
+    Anything else (a walrus in a comprehension, a lambda, the right operand of `or`, a loop with else) is left as it is."""
+
+    @staticmethod
+    def _pure(e):
+        return all(isinstance(n, (ast.Name, ast.Constant, ast.Attribute, ast.expr_context, ast.Load)) for n in ast.walk(e))
+
+    def _first(self, e):
+        """(NamedExpr, holder setter) of a walrus that is evaluated unconditionally and before anything impure"""
+        if isinstance(e, ast.NamedExpr):
+            return e
+        if isinstance(e, ast.UnaryOp):
+            return self._first(e.operand)
+        if isinstance(e, ast.Compare):
+            r = self._first(e.left)
+            if r is None and self._pure(e.left) and e.comparators:
+                r = self._first(e.comparators[0])
+            return r
+        if isinstance(e, ast.BoolOp):
+            return self._first(e.values[0])
+        if isinstance(e, ast.Call):
+            f = e.func
+            if isinstance(f, ast.Attribute):
+                r = self._first(f.value)
+                if r is not None or not self._pure(f.value):
+                    return r
+            elif not isinstance(f, ast.Name):
+                return None
+            return self._first(e.args[0]) if e.args else None
+        if isinstance(e, (ast.Attribute, ast.Subscript)):
+            return self._first(e.value)
+        if isinstance(e, ast.BinOp):
+            r = self._first(e.left)
+            if r is None and self._pure(e.left):
+                r = self._first(e.right)
+            return r
+        return None
+
+    @staticmethod
+    def _replace(root, old, new):
+        for parent in ast.walk(root):
+            for field, val in ast.iter_fields(parent):
+                if val is old:
+                    setattr(parent, field, new)
+                    return True
+                if isinstance(val, list):
+                    for i, x in enumerate(val):
+                        if x is old:
+                            val[i] = new
+                            return True
+        return False
+
+    def _hoist(self, holder, field, at):
+        """assignments to put in front of the statement for the walruses its expression `field` evaluates first"""
+        pre = []
+        for _ in range(4):
+            e = getattr(holder, field)
+            w = self._first(e) if e is not None else None
+            if w is None or not isinstance(w.target, ast.Name):
+                break
+            pre.append(ast.copy_location(ast.Assign(targets=[ast.Name(id=w.target.id, ctx=ast.Store())], value=w.value), at))
+            name = ast.copy_location(ast.Name(id=w.target.id, ctx=ast.Load()), w)
+            if e is w:
+                setattr(holder, field, name)
+            else:
+                self._replace(e, w, name)
+        for a in pre:
+            ast.fix_missing_locations(a)
+        return pre
+
+    @staticmethod
+    def _has_walrus(e):
+        return e is not None and any(isinstance(n, ast.NamedExpr) for n in ast.walk(e))
+
+    def _split_and(self, test):
+        """(prefix test or None, rest test) when `test` is an and-chain whose k-th operand (k >= 1) starts with a walrus"""
+        if isinstance(test, ast.BoolOp) and isinstance(test.op, ast.And):
+            for k, v in enumerate(test.values):
+                if self._has_walrus(v):
+                    if k == 0 or self._first(v) is None:
+                        return None
+                    pre = test.values[:k]
+                    rest = test.values[k:]
+                    mk = lambda vs: vs[0] if len(vs) == 1 else ast.copy_location(ast.BoolOp(op=ast.And(), values=vs), test)
+                    return mk(pre), mk(rest)
+        return None
+
+    def visit_If(self, node):
+        self.generic_visit(node)
+        if not self._has_walrus(node.test):
+            return node
+        pre = self._hoist(node, 'test', node)
+        if pre:
+            out = pre + [node]
+            return out
+        sp = self._split_and(node.test)
+        if sp is not None and not node.orelse:
+            inner = ast.copy_location(ast.If(test=sp[1], body=node.body, orelse=[]), node)
+            res = self.visit_If(inner)
+            node.test = sp[0]
+            node.body = res if isinstance(res, list) else [res]
+            return node
+        return node
+
+    def visit_While(self, node):
+        self.generic_visit(node)
+        if not self._has_walrus(node.test) or node.orelse:
+            return node
+        sp = self._split_and(node.test)
+        if sp is not None:
+            prefix, rest = sp
+        elif self._first(node.test) is not None:
+            prefix, rest = ast.copy_location(ast.Constant(value=True), node.test), node.test
+        else:
+            return node
+        guard = ast.copy_location(ast.If(test=ast.copy_location(ast.UnaryOp(op=ast.Not(), operand=rest), rest), body=[ast.copy_location(ast.Break(), node)], orelse=[]), node)
+        pre = self._hoist(guard.test, 'operand', node)
+        if not pre:
+            return node
+        node.test = prefix
+        node.body = pre + [guard] + node.body
+        ast.fix_missing_locations(node)
+        return node
+
+    def _stmt(self, node, field='value'):
+        self.generic_visit(node)
+        if self._has_walrus(getattr(node, field, None)):
+            pre = self._hoist(node, field, node)
+            if pre:
+                return pre + [node]
+        return node
+
+    def visit_Assign(self, node):
+        return self._stmt(node)
+
+    def visit_Return(self, node):
+        return self._stmt(node)
+
+    def visit_Expr(self, node):
+        return self._stmt(node)
+
+    def visit_AugAssign(self, node):
+        return self._stmt(node)
+
+
 def normalize(tree):
+    if any(isinstance(n, ast.NamedExpr) for n in ast.walk(tree)):
+        tree = _Walrus().visit(tree)
+        ast.fix_missing_locations(tree)
     tree = Normalizer().visit(tree)
     ast.fix_missing_locations(tree)
     return tree
